@@ -149,9 +149,101 @@ fn gen_wmode(rng: &mut Rng, allow_flusher: bool) -> WMode {
     }
 }
 
+// ------------------------------------------------------------------------------------------
+// a duplicate to stderr whose format function refuses some records half-way: the file output of
+// the same thread must not be affected (the renderings share a thread-local buffer)
+
+fn duplicate_with_refusing_format_case(ctx: &mut CaseCtx) -> CaseResult {
+    use flexi_logger::{Duplicate, FileSpec, LogSpecification, Logger};
+    let rng = &mut ctx.rng;
+    let wmode = *rng.pick(&[WMode::Direct, WMode::BufDont(64), WMode::BufDont(8192)]);
+    let crlf = rng.chance(1, 4);
+    let mut res = CaseResult::new(format!("file+stderr-duplicate-with-refusing-format|{}", wmode.label()));
+    let dir = ctx.dir.join("dup");
+    let mut lg = Logger::with(LogSpecification::trace())
+        .log_to_file(FileSpec::default().directory(&dir).basename("dup").suppress_timestamp().suffix("log"))
+        .format_for_files(flw::fmt_raw)
+        .format_for_stderr(flw::fmt_raw_fallible)
+        .duplicate_to_stderr(Duplicate::Error)
+        .write_mode(wmode.to_write_mode())
+        .error_channel(flw::error_channel());
+    if crlf {
+        lg = lg.use_windows_line_ending();
+    }
+    let (boxed, handle) = match lg.build() {
+        Ok(x) => x,
+        Err(e) => {
+            res.violate("build-failed", "C03/build-failed/dup", format!("{e:?}"));
+            return res;
+        }
+    };
+    let run = ctx.case;
+    let n = rng.range(20, 120) as u64;
+    let mut refused = 0u64;
+    for s in 0..n {
+        if rng.chance(1, 4) {
+            // only these (level Error) are duplicated; the duplicate's format refuses them
+            let m = format!("FAIL:{run}.0.{s}");
+            flw::with_record(log::Level::Error, "flmon::c03", &m, |r| boxed.log(r));
+            refused += 1;
+        }
+        let m = flw::msg_id(run, 0, s, rng.usize(40));
+        flw::with_record(log::Level::Info, "flmon::c03", &m, |r| boxed.log(r));
+    }
+    handle.shutdown();
+    let _ = flw::take_error_channel();
+    drop(handle);
+    drop(boxed);
+    res.absorb_panics("C03", "duplicate with a refusing format");
+    let le: &[u8] = if crlf { b"\r\n" } else { b"\n" };
+    let content = std::fs::read(dir.join("dup.log")).unwrap_or_default();
+    // in the file the refused records are ordinary lines (the file format does not refuse them)
+    let mut rest = Vec::with_capacity(content.len());
+    let mut seen_fail = 0u64;
+    let mut cur = content.as_slice();
+    while !cur.is_empty() {
+        let end = cur.windows(le.len()).position(|w| w == le).map_or(cur.len(), |p| p + le.len());
+        let (line, tail) = cur.split_at(end);
+        cur = tail;
+        let body = line.strip_suffix(le).unwrap_or(line);
+        let is_fail_line = std::str::from_utf8(body).ok().and_then(|t| t.strip_prefix("FAIL:")).is_some_and(|id| {
+            let p: Vec<&str> = id.split('.').collect();
+            p.len() == 3 && p[0] == run.to_string() && p.iter().all(|x| !x.is_empty() && x.bytes().all(|b| b.is_ascii_digit()))
+        });
+        if is_fail_line && line.ends_with(le) {
+            seen_fail += 1;
+        } else {
+            rest.extend_from_slice(line);
+        }
+    }
+    res.count("records_refused_by_the_duplicate_format", refused);
+    if seen_fail != refused && res.verdict == Verdict::Held {
+        res.violate(
+            "torn-line",
+            format!("C03/torn-line/file+stderr-duplicate/{}", wmode.label()),
+            format!("{refused} records were refused by the format of the stderr duplicate only; the file has {seen_fail} intact lines for them"),
+        );
+    }
+    if res.verdict == Verdict::Held {
+        match check_stream(&rest, run, &[n], le) {
+            Ok(rep) => res.count("lines_checked", rep.lines),
+            Err((kind, detail)) => res.violate(
+                &kind,
+                format!("C03/{kind}/file+stderr-duplicate/{}", wmode.label()),
+                format!("the format of the stderr duplicate refuses some records; the file output: {detail}"),
+            ),
+        }
+    }
+    res.nontrivial = refused > 0;
+    res
+}
+
 pub fn run_case(ctx: &mut CaseCtx) -> CaseResult {
     if ctx.case % 8 == 7 {
         return std_case(ctx);
+    }
+    if ctx.case % 16 == 5 {
+        return duplicate_with_refusing_format_case(ctx);
     }
     let rng = &mut ctx.rng;
     let naming = flw::gen_naming(rng, false);
